@@ -27,6 +27,7 @@ from __future__ import annotations
 
 import json
 import random
+import re
 import shutil
 import tempfile
 import zlib
@@ -422,6 +423,17 @@ READLINE_LOOKALIKE = "reader:readline:content-line-starting-with-dash-boundary"
 READLINE_MIX = "reader:readline-then-other-api:lookahead-line-misplaced"
 
 
+def first_api_path(obs, api, prefix=()):
+    for i, o in enumerate(obs):
+        if o.get("api") == api:
+            return prefix + (i,)
+        if o.get("children"):
+            r = first_api_path(o["children"], api, prefix + (i,))
+            if r is not None:
+                return r
+    return None
+
+
 def lookalike_line(raw: bytes, boundary: bytes) -> bool:
     """The part body has a *line* (text after an LF) that begins with the dash-boundary.  It is not a delimiter
     (the generators never emit CRLF--boundary inside content, and what follows is not a delimiter line end)."""
@@ -599,6 +611,15 @@ def read_variant(loop, plan, m, wire, ctype, seg, feed, scripts, rec, ctx, witne
             s0 = sc["sizes"][0]
             rec.sig("delimiter-offset-mod-read-size", (min(s0, 70000), len(rp.raw) % s0 if len(rp.raw) % s0 < 90 or s0 - len(rp.raw) % s0 < 90 else -1))
     rec.sig("api-enc-seg-feed", [sorted({(sc.get("api"), enc_tag(pp)) for sc, pp in zip(scripts, plan["parts"])}), seg["k"], feed["mode"]])
+    # trigger sub-stratum attribution: once a part was left after readline() (partial_readline), the look-ahead line it
+    # held is out of place and any later breach of this read is a consequence of that mix
+    if v and v[0][0] not in (READLINE_LOOKALIKE, READLINE_MIX):
+        mp = first_api_path(obs, "partial_readline")
+        if mp is not None:
+            mt = re.match(r"((?:/\d+)+): ", v[0][1])
+            bp = tuple(int(x) for x in mt.group(1).split("/")[1:]) if mt else None
+            if bp is None or bp >= mp:
+                v[0] = (READLINE_MIX, f"(first visible consequence: {v[0][0]}) " + v[0][1])
     # a framing slip makes everything after it differ: only the first breach (in reading order) is a finding
     if len(v) > 1:
         rec.count("consequential-mismatches-not-reported", len(v) - 1)
